@@ -1,8 +1,10 @@
 package main
 
 import (
+	"bytes"
 	"fmt"
 	"io"
+	"math/big"
 	"sync"
 	"time"
 
@@ -77,6 +79,52 @@ func (d deviation) apply(p *ref.Peer, r *mon.RNG, pki *tlsPKI, changed *bool) {
 
 func (d deviation) mutator(p *ref.Peer, r *mon.RNG, pki *tlsPKI) func(step string, def []ref.Item) []ref.Item {
 	return func(step string, def []ref.Item) []ref.Item {
+		if d.kind == "ecdhe-ske" {
+			// the scripted server selects an ECDHE-SM2 suite (which the GM client offers by default) and sends an
+			// ECDHE-style ServerKeyExchange: curve_type 3, curve id, point, then a signature part that is cut short,
+			// mis-sized or garbage. The reference peer cannot finish such a handshake, so only error/no panic/return is judged.
+			switch step {
+			case ref.StServerHello:
+				if len(def) == 1 && def[0].RecType == ref.RecHandshake && len(def[0].Data) > 4+2+32+1 {
+					m := append([]byte{}, def[0].Data...)
+					o := 4 + 2 + 32
+					o += 1 + int(m[o])
+					if o+2 <= len(m) {
+						su := []uint16{ref.SuiteECDHECBC, 0xe051}[d.arg2%2]
+						m[o], m[o+1] = byte(su>>8), byte(su)
+					}
+					return []ref.Item{{RecType: ref.RecHandshake, Data: m}}
+				}
+			case ref.StServerKeyExchange:
+				var pt []byte
+				q := ref.MulG(new(big.Int).SetBytes(r.Bytes(31)))
+				switch (d.arg2 / 2) % 4 {
+				case 0, 1:
+					pt = append([]byte{4}, append(ref.Pad32(q.X), ref.Pad32(q.Y)...)...)
+				case 2:
+					pt = append([]byte{4}, append(ref.Pad32(q.X), ref.Pad32(new(big.Int).Add(q.Y, big.NewInt(1)))...)...) // off the curve
+				default:
+					pt = nil
+				}
+				body := append([]byte{3, 0, 23, byte(len(pt))}, pt...)
+				sig := r.Bytes(70)
+				var tail []byte
+				switch {
+				case d.arg <= 6:
+					tail = append([]byte{0, 70}, sig...)[:d.arg] // 0..6 bytes of the signature part
+				case d.arg == 7:
+					tail = append([]byte{0, 70}, sig...) // well-formed length, garbage signature
+				case d.arg == 8:
+					tail = append([]byte{0xff, 0xff}, sig...)
+				case d.arg == 9:
+					tail = append([]byte{0, 0}, sig...)
+				default:
+					tail = append([]byte{0, 71}, sig...) // length one more than present
+				}
+				return []ref.Item{{RecType: ref.RecHandshake, Data: ref.HSMsg(ref.HSServerKeyExchange, append(body, tail...))}}
+			}
+			return def
+		}
 		if step != d.step {
 			return def
 		}
@@ -187,13 +235,82 @@ func (d deviation) mutator(p *ref.Peer, r *mon.RNG, pki *tlsPKI) func(step strin
 			return []ref.Item{hs(def[0].Data[:d.arg]), hs(def[0].Data[d.arg:])}
 		case "client-hello":
 			// arg = version, arg2 = suite/compression variant
-			suites := [][]uint16{{ref.SuiteECCSM4CBC, ref.SuiteECCSM4GCM}, {0x002f, 0xc02f}, {0x1234, 0xfefe}, {}, {ref.SuiteECDHECBC}, {0x5600, ref.SuiteECCSM4CBC}, {0x002f, ref.SuiteECCSM4CBC}}[d.arg2%7]
-			comp := [][]byte{{0}, {1}, {}, {1, 0}}[(d.arg2/7)%4]
+			suites, comp := c15HelloVariant(d.arg2)
 			ch := &ref.ClientHello{Version: uint16(d.arg), Random: p.ClientRandom, Suites: suites, Compression: comp}
 			return []ref.Item{hs(ch.Marshal())}
 		}
 		return def
 	}
+}
+
+// c15HelloVariant maps a variant number to the (suite list, compression list) of a scripted ClientHello.
+func c15HelloVariant(v int) ([]uint16, []byte) {
+	lists := [][]uint16{{ref.SuiteECCSM4CBC, ref.SuiteECCSM4GCM}, {0x002f, 0xc02f}, {0x1234, 0xfefe}, {}, {ref.SuiteECDHECBC}, {0x5600, ref.SuiteECCSM4CBC}, {0x002f, ref.SuiteECCSM4CBC},
+		{0x009c}, {0xc02f}, {0x003c, 0x009d}, {0xc02f, 0x002f}}
+	comps := [][]byte{{0}, {1}, {}, {1, 0}}
+	return lists[v%len(lists)], comps[(v/len(lists))%len(comps)]
+}
+
+const c15HelloVariants = 44
+
+// tls12Only reports suites that may only be selected at TLS 1.2 (AEAD and SHA-256/384 MAC suites).
+func tls12Only(su uint16) bool {
+	switch su {
+	case 0x009c, 0x009d, 0x003c, 0x003d, 0xc02f, 0xc02b, 0xc030, 0xc02c, 0xc027, 0xc023, 0xcca8, 0xcca9:
+		return true
+	}
+	return false
+}
+
+// c15ServerHelloLegal checks the first message a server sent against the ClientHello it answered: a ServerHello is
+// a refusal to abort, so whatever it selects must have been on offer and must be legal for the version it selects.
+func c15ServerHelloLegal(events []ref.WireEvent, cliVersion uint16, offered []uint16, comp []byte) string {
+	var ss []byte
+	for _, e := range events {
+		if !e.FromClient {
+			ss = append(ss, e.Data...)
+		}
+	}
+	recs, _ := ref.SplitRecords(ss)
+	var hs []byte
+	for _, rc := range recs {
+		if rc.Type != ref.RecHandshake {
+			break
+		}
+		hs = append(hs, rc.Body...)
+	}
+	if len(hs) < 4 || hs[0] != ref.HSServerHello {
+		return ""
+	}
+	n := int(hs[1])<<16 | int(hs[2])<<8 | int(hs[3])
+	if len(hs) < 4+n {
+		return ""
+	}
+	sh, err := ref.ParseServerHello(hs[4 : 4+n])
+	if err != nil {
+		return ""
+	}
+	found := false
+	for _, o := range offered {
+		if o == sh.Suite {
+			found = true
+		}
+	}
+	switch {
+	case !found:
+		return fmt.Sprintf("ServerHello selects suite %04x which the ClientHello did not offer", sh.Suite)
+	case sh.Version > cliVersion:
+		return fmt.Sprintf("ServerHello version %04x above the ClientHello version %04x", sh.Version, cliVersion)
+	case sh.Version != 0x0101 && (sh.Version < 0x0300 || sh.Version > 0x0303): // SSL 3.0 is a version this stack still speaks
+		return fmt.Sprintf("ServerHello selects version %04x", sh.Version)
+	case tls12Only(sh.Suite) && sh.Version != 0x0303:
+		return fmt.Sprintf("ServerHello selects the TLS 1.2-only suite %04x at version %04x", sh.Suite, sh.Version)
+	case (sh.Suite&0xff00 == 0xe000) != (sh.Version == 0x0101):
+		return fmt.Sprintf("ServerHello pairs suite %04x with version %04x", sh.Suite, sh.Version)
+	case sh.Compression != 0 || !bytes.Contains(comp, []byte{0}):
+		return fmt.Sprintf("ServerHello answers compression list %x with method %d", comp, sh.Compression)
+	}
+	return ""
 }
 
 type c15Target struct {
@@ -213,6 +330,7 @@ type c15Result struct {
 	peerDone   bool
 	harnessBug string
 	devChanged bool // the deviation really altered what the peer sent in this run
+	wire       []ref.WireEvent
 }
 
 // runScript runs one scripted peer against either gmtls (cfg != nil) or the strict reference endpoint.
@@ -289,6 +407,7 @@ func runScript(t c15Target, dev deviation, pki *tlsPKI, seed uint64, cfg *gmtls.
 		select {
 		case <-endDone:
 			wg.Wait()
+			res.wire = log.snapshot()
 			return res
 		case <-tick.C:
 			if peerConn.in.parkedEmpty() && endConn.in.parkedEmpty() && peerConn.in.parkedEmpty() {
@@ -447,13 +566,20 @@ func runC15(c *Ctx) {
 				}
 			}
 		}
+		if !t.peerIsClient {
+			for tail := 0; tail <= 10; tail++ {
+				for pv := 0; pv < 8; pv++ {
+					jobs = append(jobs, job{t, deviation{ref.StServerKeyExchange, "ecdhe-ske", tail, pv}})
+				}
+			}
+		}
 		if t.peerIsClient {
 			vstep := 1
 			if !c.Thorough {
 				vstep = 13
 			}
 			for v := 0; v <= 0x0400; v += vstep {
-				for variant := 0; variant < 28; variant++ {
+				for variant := 0; variant < c15HelloVariants; variant++ {
 					if (v+variant)%7 != 0 && !(v == 0x0101 || v == 0x0303 || v == 0x0200 || v == 0x0100 || v == 0x0102) {
 						continue
 					}
@@ -461,7 +587,7 @@ func runC15(c *Ctx) {
 				}
 			}
 			for _, v := range []int{0x0100, 0x0101, 0x0102, 0x0200, 0x02ff, 0x0300, 0x0301, 0x0302, 0x0303, 0x0304, 0x0400} {
-				for variant := 0; variant < 28; variant++ {
+				for variant := 0; variant < c15HelloVariants; variant++ {
 					jobs = append(jobs, job{t, deviation{ref.StClientHello, "client-hello", v, variant}})
 				}
 			}
@@ -487,6 +613,8 @@ func runC15(c *Ctx) {
 			devCls += fmt.Sprintf("/type=%d", j.dev.arg)
 		case "client-hello":
 			devCls += fmt.Sprintf("/ver=%s/variant=%d", verClass(j.dev.arg), j.dev.arg2)
+		case "ecdhe-ske":
+			devCls += fmt.Sprintf("/sigpart=%d/point=%d", j.dev.arg, j.dev.arg2/2)
 		case "prepend-alert":
 			devCls += fmt.Sprintf("/%d-%d", j.dev.arg, j.dev.arg2)
 		case "certs":
@@ -501,6 +629,12 @@ func runC15(c *Ctx) {
 		}
 		if res.noReturn {
 			rep.Violation("C15/Handshake/no-return-after-input-ended/"+j.t.name+"/"+j.dev.kind, j.dev.String(), w)
+		}
+		if j.dev.kind == "client-hello" && res.wire != nil {
+			suites, comp := c15HelloVariant(j.dev.arg2)
+			if why := c15ServerHelloLegal(res.wire, uint16(j.dev.arg), suites, comp); why != "" {
+				rep.Violation("C15/ServerHello/answers-an-unacceptable-ClientHello/"+j.t.name+"/ver="+verClass(j.dev.arg), fmt.Sprintf("%s: %s (the server must abort instead)", j.dev, why), w)
+			}
 		}
 		if j.dev.kind == "honest" {
 			// control: an honest reference peer must be able to complete with the endpoint (and with the reference endpoint)
